@@ -94,6 +94,12 @@ inductive Expr where
   | inl (negated : Bool) (x items : Expr)
   | tnil
   | tcons (e rest : Expr)
+  /-- `x [NOT] IN (<sub-query q>)`: `q` is the slot of an uncorrelated sub-query (see `Nested`) -/
+  | inq (negated : Bool) (x : Expr) (q : Nat)
+  /-- `EXISTS (<sub-query q>)` -/
+  | exists_ (q : Nat)
+  /-- `(<sub-query q>)` used as a value: first column of its first row, NULL when it is empty -/
+  | scalar (q : Nat)
   deriving DecidableEq, Repr
 
 /-- what is fixed outside the statement: the engine's LIKE and its default NULL position -/
@@ -101,6 +107,8 @@ structure Env where
   like : Val → Val → Option Bool
   /-- NULLs sort as the smallest value when no NULLS FIRST/LAST is given (sqlite, MySQL) -/
   nullsLow : Bool
+  /-- results of the (uncorrelated) sub-queries of the statement, by slot -/
+  sub : Nat → List (List Val)
 
 def evalCmp (env : Env) : Cmp → Val → Val → Val
   | .eq => lift2 (fun x y => x == y)
@@ -151,6 +159,11 @@ def eval (env : Env) (ρ : Nat → Val) : Expr → Val
     else inSem (eval env ρ x) (evalItems env ρ items)
   | .tnil => none
   | .tcons e _ => eval env ρ e
+  | .inq n x q =>
+    if n then not3 (inSem (eval env ρ x) ((env.sub q).map fun r => (r.head?).join))
+    else inSem (eval env ρ x) ((env.sub q).map fun r => (r.head?).join)
+  | .exists_ q => ofBool (!(env.sub q).isEmpty)
+  | .scalar q => ((env.sub q).head?.bind fun r => r.head?).join
 /-- values of the items of a tuple chain -/
 def evalItems (env : Env) (ρ : Nat → Val) : Expr → List Val
   | .tcons e rest => eval env ρ e :: evalItems env ρ rest
@@ -170,6 +183,7 @@ def saInvert : Expr → Expr
   | .cmp o l r => .cmp o.saNeg l r
   | .btw n x lo hi => .btw (!n) x lo hi
   | .inl n x items => .inl (!n) x items
+  | .inq n x q => .inq (!n) x q
   | e => .not e
 
 /-- the expression the rendered text denotes -/
@@ -189,6 +203,9 @@ def saNormE : Expr → Expr
   | .inl n x items => .inl n (saNormE x) (saNormE items)
   | .tnil => .tnil
   | .tcons e rest => .tcons (saNormE e) (saNormE rest)
+  | .inq n x q => .inq n (saNormE x) q
+  | .exists_ q => .exists_ q
+  | .scalar q => .scalar q
 
 /-- SQLAlchemy's static type of the element (only its being Boolean matters): columns and NULL are
 `NullType`, integer literals `Integer`; an arithmetic result takes the left operand's type, except
@@ -209,11 +226,14 @@ def tyOf : Expr → Ty
   | .not _ => .bool
   | .btw _ _ _ _ => .bool
   | .neg e => tyOf e
-  | .ite _ _ _ => .unk
+  | .ite _ _ _ => .null        -- `prepare_case` gives the CASE no type (e7eccad)
   | .cast _ => .int
   | .inl _ _ _ => .bool
   | .tnil => .unk
   | .tcons _ _ => .unk
+  | .inq _ _ _ => .bool
+  | .exists_ _ => .bool
+  | .scalar _ => .unk
   | .ar .add _ _ => .null      -- built as `BinaryExpression(l, r, add)` without a type (374b822)
   | .ar .div _ _ => .null      -- custom operator `/`
   | .ar o l r =>
@@ -229,24 +249,19 @@ probe covers it) -/
 def typedArith : Expr → Bool
   | .ar _ _ _ => false         -- since 1f57814 `NOT (x)` is printed for these, as the model does
   | .neg e => tyOf e == .bool || tyOf e == .unk
-  | .ite _ _ _ => true
   | _ => false
 
-def isIte : Expr → Bool
-  | .ite _ _ _ => true
-  | _ => false
-
-/-- the modelled fragment: no `NOT` stands directly over Boolean-typed arithmetic or a CASE (after
-normalisation of the operand), and no CASE is a direct operand of AND / OR (SQLAlchemy prints a
-Boolean-typed CASE there as `CASE … END = 1`) -/
+/-- the modelled fragment: no `NOT` stands directly over a unary minus that SQLAlchemy types as
+Boolean (printed `NOT (-x)` instead of `NOT -x`; same value).  Only the printed *text* is concerned:
+the normal form preserves values everywhere. -/
 def okE : Expr → Bool
   | .null => true
   | .int _ => true
   | .col _ => true
   | .cmp _ l r => okE l && okE r
   | .ar _ l r => okE l && okE r
-  | .and l r => okE l && okE r && !isIte l && !isIte r
-  | .or l r => okE l && okE r && !isIte l && !isIte r
+  | .and l r => okE l && okE r
+  | .or l r => okE l && okE r
   | .not e => okE e && !typedArith (saNormE e)
   | .neg e => okE e
   | .btw _ x lo hi => okE x && okE lo && okE hi
@@ -255,6 +270,9 @@ def okE : Expr → Bool
   | .inl _ x items => okE x && okE items
   | .tnil => true
   | .tcons e rest => okE e && okE rest
+  | .inq _ x _ => okE x
+  | .exists_ _ => true
+  | .scalar _ => true
 
 /-! ### relations and joins -/
 
@@ -323,6 +341,8 @@ def oneEqOne : Expr := .cmp .eq (.int 1) (.int 1)
 /-- left-deep join chains (`prepare_join` rejects a `Join` on the right) over base tables -/
 inductive From where
   | table (t : Nat)
+  /-- `(<sub-query q>) AS s` with `w` columns, as the first source of the chain -/
+  | sub (q w : Nat)
   | join (l : From) (jt : String) (implicit : Bool) (t : Nat) (on : Option Expr)
   deriving Repr
 
@@ -332,11 +352,13 @@ structure Db where
 
 def fromWidth (db : Db) : From → Nat
   | .table t => db.width t
+  | .sub _ w => w
   | .join l _ _ t _ => fromWidth db l + db.width t
 
 /-- SQL meaning of a FROM clause; a `join_type` without SQL meaning denotes nothing -/
 def evalFrom (env : Env) (db : Db) : From → Table
   | .table t => db.rows t
+  | .sub q _ => env.sub q
   | .join l jt imp t on =>
     if imp then cross (evalFrom env db l) (db.rows t)
     else match sqlKind jt with
@@ -350,6 +372,7 @@ def evalFrom (env : Env) (db : Db) : From → Table
 /-- the FROM clause of the rendered text (when no join raises) -/
 def saFrom : From → From
   | .table t => .table t
+  | .sub q w => .sub q w
   | .join l jt imp t on =>
     if imp then .join (saFrom l) jt true t none
     else match saKind jt with
@@ -360,11 +383,13 @@ def saFrom : From → From
 /-- some explicit join has a `join_type` for which the renderer raises `NotImplementedError` -/
 def raisesFrom : From → Bool
   | .table _ => false
+  | .sub _ _ => false
   | .join l jt imp _ _ => raisesFrom l || (!imp && (saKind jt).isNone)
 
 /-- the ON conditions are in the modelled fragment -/
 def okFrom : From → Bool
   | .table _ => true
+  | .sub _ _ => true
   | .join l _ imp _ on =>
     okFrom l && (imp || match on with | none => true | some c => okE c)
 
@@ -614,6 +639,37 @@ def okQ : Query → Bool
   | .select s => okSelect s
   | .gselect g => okGSelect g
   | .setop _ _ l r => okQ l && okQ r
+
+/-! ### statements with (uncorrelated) sub-queries
+
+A statement is its main query plus the list of its sub-queries in dependency order: sub-query `i`
+may refer (`Expr.inq/exists_/scalar`, `From.sub`) to the slots `< i`, the main query to all of them.
+`to_expression(Select)` / `to_table(Select)` render a sub-query with `prepare_select`, i.e. with the
+same normal form. -/
+
+structure Nested where
+  subs : List Query
+  main : Query
+  deriving Repr
+
+def withSub (env : Env) (f : Nat → Table) : Env := { env with sub := f }
+
+/-- evaluate the sub-queries in order, slot `i` seeing the slots before it -/
+def evalSubs (env : Env) (db : Db) : List Query → Nat → (Nat → Table) → (Nat → Table)
+  | [], _, acc => acc
+  | q :: qs, i, acc =>
+    evalSubs env db qs (i + 1) (fun j => if j = i then evalQuery (withSub env acc) db q else acc j)
+
+def evalNested (env : Env) (db : Db) (n : Nested) : Table :=
+  evalQuery (withSub env (evalSubs env db n.subs 0 (fun _ => []))) db n.main
+
+def raisesN (n : Nested) : Bool := n.subs.any raisesQ || raisesQ n.main
+
+/-- `get_string` on the whole statement (fallback = the original statement) -/
+def saRenderN (n : Nested) : Nested :=
+  if raisesN n then n else ⟨n.subs.map saNorm, saNorm n.main⟩
+
+def okN (n : Nested) : Bool := n.subs.all okQ && okQ n.main
 
 /-! ### INSERT … VALUES / UPDATE / DELETE -/
 
